@@ -1206,6 +1206,32 @@ class DiskRefsContainer(RefsContainer):
                 f.abort()
             self._invalidate_packed_refs_cache()
 
+    def _check_packed_conflict(self, name: Ref, filename: bytes) -> None:
+        """Refuse a ref name that collides with a packed ref.
+
+        ``refs/heads/a`` and ``refs/heads/a/b`` cannot both exist. Loose refs
+        collide in the file system by themselves; a ref that only lives in
+        packed-refs has no file or directory, so it has to be checked here.
+
+        Args:
+          name: The (already followed) name of the ref about to be written
+          filename: Path of its loose ref file, for the error
+
+        Raises:
+          NotADirectoryError: if a leading part of name is a packed ref
+          IsADirectoryError: if a packed ref lives below name
+        """
+        packed_refs = self.get_packed_refs()
+        probe_ref = Ref(os.path.dirname(name))
+        while probe_ref:
+            if packed_refs.get(probe_ref, None) is not None:
+                raise NotADirectoryError(filename)
+            probe_ref = Ref(os.path.dirname(probe_ref))
+        prefix = name + b"/"
+        for ref in packed_refs:
+            if ref.startswith(prefix):
+                raise IsADirectoryError(filename)
+
     def set_symbolic_ref(
         self,
         name: Ref,
@@ -1228,6 +1254,7 @@ class DiskRefsContainer(RefsContainer):
         self._check_refname(name)
         self._check_refname(other)
         filename = self.refpath(name)
+        self._check_packed_conflict(name, filename)
         f = GitFile(filename, "wb")
         try:
             f.write(SYMREF + other + b"\n")
@@ -1282,13 +1309,9 @@ class DiskRefsContainer(RefsContainer):
             realname = name
         filename = self.refpath(realname)
 
-        # make sure none of the ancestor folders is in packed refs
-        probe_ref = Ref(os.path.dirname(realname))
+        # make sure neither an ancestor folder nor a descendant is in packed refs
+        self._check_packed_conflict(realname, filename)
         packed_refs = self.get_packed_refs()
-        while probe_ref:
-            if packed_refs.get(probe_ref, None) is not None:
-                raise NotADirectoryError(filename)
-            probe_ref = Ref(os.path.dirname(probe_ref))
 
         ensure_dir_exists(os.path.dirname(filename))
         with GitFile(filename, "wb") as f:
@@ -1365,6 +1388,7 @@ class DiskRefsContainer(RefsContainer):
             realname = name
         self._check_refname(realname)
         filename = self.refpath(realname)
+        self._check_packed_conflict(realname, filename)
         ensure_dir_exists(os.path.dirname(filename))
         with GitFile(filename, "wb") as f:
             if os.path.exists(filename) or realname in self.get_packed_refs():
